@@ -8,6 +8,7 @@ import (
 var checks = map[string]func(*Ctx){
 	"C14":    runC14,
 	"corpus": runCorpus,
+	"gen":    runGen,
 }
 
 func main() {
